@@ -660,7 +660,8 @@ def c17_to_bytes_fresh(run):
     n_chain, n_fresh = "C17/wfsa.base.WFSA.to_bytes/chain", "C17/wfsa.base.WFSA.to_bytes/fresh-chain-states"
     # module-level state the function may use (read from the current source)
     mod = source.module_ast(BASE)
-    genv = {"EPSILON": "", "ValueError": "ValueError", "next": I.Native("next", lambda i2, a, k: next(a[0]))}
+    genv = {"EPSILON": "", "ValueError": "ValueError", "next": I.Native("next", lambda i2, a, k: next(a[0])),
+            "itertools": Bag(count=I.Native("itertools.count", lambda i2, a, k: itertools.count(*a)))}
     for st in mod.body:
         if isinstance(st, ast.Assign) and isinstance(st.value, ast.Call) and ast.unparse(st.value) == "itertools.count()":
             genv[ast.unparse(st.targets[0])] = itertools.count()
@@ -679,7 +680,8 @@ def c17_to_bytes_fresh(run):
                 raise I.OutOfSubset("to_bytes does not return the spawned machine")
             results.append(m)
     except (I.OutOfSubset, I.PyRaise) as e:
-        run.obligation(n_chain, "out-of-subset", detail=str(e))
+        run.obligation(n_chain, "out-of-subset", role=AUX, detail=str(e))
+        run.obligation(n_fresh, "out-of-subset", detail=str(e))
         return
     ok_chain = True
     news = []
@@ -711,8 +713,20 @@ def c17_to_bytes_fresh(run):
     else:
         run.obligation(n_chain, "refuted", role=AUX, backend="pyvc", detail="multi-byte arc is not expanded into a chain with the weight on the last arc", replay=dict(replayed=False), signature="to_bytes:chain")
     if news[0] & news[1]:
+        replay = dict(replayed=False, hint="LarkStuff('start: A B\\nA: \"é\"\\nB: \"ü\"').byte_cfg() accepts 'üé'")
+        try:
+            from genlm.grammar.wfsa.base import WFSA as RealWFSA
+            from genlm.grammar.semiring import Float
+            m1, m2 = RealWFSA.from_string("é", Float), RealWFSA.from_string("ü", Float)
+            b1, b2 = m1.to_bytes(), m2.to_bytes()
+            shared = (set(b1.states) - set(m1.states)) & (set(b2.states) - set(m2.states))
+            replay.update(input="WFSA.from_string('é', Float).to_bytes() and WFSA.from_string('ü', Float).to_bytes()", shared_chain_states=sorted(map(str, shared)),
+                          expected="no chain state in common")
+            replay["replayed"] = bool(shared)
+        except Exception as e:  # noqa: BLE001
+            replay.update(native_error=repr(e))
         run.obligation(n_fresh, "refuted", backend="pyvc", detail=f"two to_bytes() calls reuse the chain-state names {sorted(news[0] & news[1])}: automata merged into one grammar share states",
-                       replay=dict(replayed=False, hint="LarkStuff('start: A B\\nA: \"é\"\\nB: \"ü\"').byte_cfg() accepts 'üé'"), signature="to_bytes:fresh-states")
+                       replay=replay, signature="to_bytes:fresh-states")
     else:
         run.obligation(n_fresh, "proved", backend="pyvc", detail="chain states of two calls are pairwise distinct (module-level counter) and differ from the input's states")
 
